@@ -6,7 +6,7 @@ from hypothesis import strategies as st
 
 from torchjd.aggregation import Krum, TrimmedMean
 from vlib import refs
-from vlib.matrices import SEEDS, eps_of
+from vlib.matrices import case_tensor, widened, SEEDS, eps_of
 from vlib.runner import RAISED, Outcome, Part
 
 ID = "C16"
@@ -58,16 +58,19 @@ def _case(draw):
     sig_e = draw(st.integers(-3, 3))
     sigma = 10.0**sig_e
     big_m = draw(st.sampled_from([False, False, False, True]))
+    extra_m = 0
     if big_m:
         n = draw(st.sampled_from([n, 16, 64]))
+        # dozens of workers, a few cases far beyond the block sizes of batched distance / sort kernels
+        extra_m = draw(st.sampled_from([draw(st.integers(20, 40))] * 7 + [130, 300, 600]))
     if kind == "tm":
         b = draw(st.integers(0, 4))
-        m = draw(st.integers(2 * b + 1, 2 * b + 1 + draw(st.integers(0, 4)))) + (draw(st.integers(20, 40)) if big_m else 0)
+        m = draw(st.integers(2 * b + 1, 2 * b + 1 + draw(st.integers(0, 4)))) + extra_m
         qmax = b
         params = {"b": b}
     else:
         f = draw(st.integers(0, 4))
-        m = draw(st.integers(f + 3, f + 3 + draw(st.integers(0, 4)))) + (draw(st.integers(20, 40)) if big_m else 0)
+        m = draw(st.integers(f + 3, f + 3 + draw(st.integers(0, 4)))) + extra_m
         k = draw(st.integers(1, m))
         qmax = f
         params = {"f": f, "k": k}
@@ -115,14 +118,14 @@ def _case(draw):
 
 def parts(tier):
     n = 10_000 if tier == "quick" else 300_000
-    return [Part("generated", "given", n=n, strategy=_case)]
+    return [Part("generated", "given", n=n, strategy=lambda: widened(_case(), light=True))]
 
 
 def run_case(case) -> Outcome:
     out = Outcome()
     dtype = case["dtype"]
     eps = eps_of(dtype)
-    Jt = torch.tensor(case["J"], dtype=getattr(torch, dtype))
+    Jt = case_tensor(case, getattr(torch, dtype))
     J = Jt.double().numpy()
     m, n = J.shape
     if case["kind"] == "reject":
